@@ -71,7 +71,7 @@ impl Property for C09 {
         "C09"
     }
     fn rule(&self) -> &'static str {
-        "proptest: minimum delay in {0,1,10,3600,86400,2^63,u64::MAX}, deployment timestamp in {0,1,1.7e9}, history of <=12 (quick) / <=20 (thorough) steps: Advance (0, small, to last_success+delay-1/+0/+1, by delay-1/+0/+1) and Rotate (bypass?, operator authorised?, candidate valid / invalid / duplicate) with the proof always from the newest set; the harness owns the forward-moving ledger clock. Oracle: clock model last = time of the last successful rotation (deployment counts); non-bypass succeeds iff now-last >= delay and the candidate is acceptable; bypass needs operator authorisation and ignores the delay; success restarts the clock, failure leaves it (snapshot equality + later behaviour). non-trivial = delay > 0 and a non-bypass attempt lands within +-1s of the boundary, or a bypass success is followed by a non-bypass attempt"
+        "proptest: minimum delay in {0,1,10,3600,86400,2^63,u64::MAX}, deployment timestamp in {0,1,1.7e9}, history of <=12 (quick) / <=20 (thorough) steps: Advance (0, small, to last_success+delay-1/+0/+1, by delay-1/+0/+1) and Rotate (bypass?, operator authorised?, candidate valid / invalid / duplicate) with the proof always from the newest set; the harness owns the forward-moving ledger clock; the ledger sequence number advances with it (one ledger per 5 s, bounded). Oracle: clock model last = time of the last successful rotation (deployment counts); non-bypass succeeds iff now-last >= delay and the candidate is acceptable; bypass needs operator authorisation and ignores the delay; success restarts the clock, failure leaves it (snapshot equality + later behaviour). non-trivial = delay > 0 and a non-bypass attempt lands within +-1s of the boundary, or a bypass success is followed by a non-bypass attempt"
     }
     fn cases(&self, tier: Tier) -> u64 {
         tier.pick(20000, 300000)
@@ -102,6 +102,7 @@ impl Property for C09 {
         let mut n_sets: u16 = 1;
         let mut nontrivial = false;
         let mut bypass_succeeded = false;
+        let mut seq_advanced: u32 = 0;
         cx.label(&format!("delay_{}", d));
 
         for (k, st) in case.steps.iter().enumerate() {
@@ -126,7 +127,15 @@ impl Property for C09 {
                         }
                     };
                     // keep clear of u64::MAX arithmetic in the host's own bookkeeping
-                    now = target.min(u64::MAX - 1);
+                    let new_now = target.min(u64::MAX - 1);
+                    // ledgers close about every 5 s: the sequence number moves with the clock (bounded, so that
+                    // persistent entries - which live 6M ledgers in the test Env - never expire)
+                    let ledgers = ((new_now - now) / 5).min(150_000) as u32;
+                    if seq_advanced + ledgers <= 4_000_000 {
+                        seq_advanced += ledgers;
+                        env.ledger().set_sequence_number(env.ledger().sequence() + ledgers);
+                    }
+                    now = new_now;
                     env.ledger().set_timestamp(now);
                 }
                 Step::Rotate { bypass, operator_auth, cand } => {
